@@ -101,4 +101,34 @@ Proof.
   - intros X. inversion X; subst. unfold p_update. destruct r; exact Ha.
 Qed.
 
+
+(** the composition (what the auxiliary text shows) as a function of the events alone *)
+Definition compose_step (buf : str) (e : pevent) : str :=
+  match e with
+  | PKey k _ => match keycode_to_char k with Some ch => buf ++ [ch] | None => buf end
+  | PBackspace true => []
+  | PBackspace false => removelast buf
+  | PCommit _ | PFinish => []
+  | PUpdate _ _ => buf
+  end.
+
+Lemma buffer_is_composition c s e c' s' o : p_step Q c s e = Some (c', s', o) -> p_buf s' = compose_step (p_buf s) e.
+Proof.
+  destruct e as [k selb | ctrl | i | | cc r]; cbn [p_step compose_step].
+  - unfold p_key. destruct (keycode_to_char k) as [ch|].
+    + pose proof (create_buf c (set_buf s (p_buf s ++ [ch]))) as Hb.
+      destruct (create_suggestion Q c (set_buf s (p_buf s ++ [ch]))) as [s1 o1]. cbn [fst] in Hb. intros X. inversion X; subst. exact Hb.
+    + destruct (p_buf s) eqn:Eb; [intros X; inversion X; subst; exact Eb|].
+      pose proof (create_buf c s) as Hb. destruct (create_suggestion Q c s) as [s1 o1]. cbn [fst] in Hb. intros X. inversion X; subst. rewrite Hb. exact Eb.
+  - unfold p_backspace. destruct (p_buf s) eqn:Eb.
+    + intros X. inversion X; subst. rewrite Eb. destruct ctrl; reflexivity.
+    + destruct ctrl; [intros X; inversion X; reflexivity|].
+      destruct (removelast (n :: s0)) eqn:Er; [intros X; inversion X; reflexivity|].
+      pose proof (create_buf c (set_buf s (n0 :: l))) as Hb. destruct (create_suggestion Q c (set_buf s (n0 :: l))) as [s1 o1]. cbn [fst] in Hb.
+      intros X. inversion X; subst. exact Hb.
+  - unfold p_commit. destruct (negb _ && _ && _); [destruct (bare_suggestion s i)|]; intros X; inversion X; reflexivity.
+  - intros X. inversion X; reflexivity.
+  - intros X. inversion X. unfold p_update. destruct r; reflexivity.
+Qed.
+
 End C01.
